@@ -69,18 +69,18 @@ CONFIGS = {}
 # --- one configuration per owning set: 2 parents x 3 children, the whole MutableSet interface,
 #     one parent attached to an IR and the other detached (so cache updates on both paths).
 CONFIGS["Rel_sec"] = _rel("sec", ["m1", "m2"], ["s1", "s2", "s3"], "Modules", "Sections", "sec",
-                          extra={"IRs": {"i1"}}, attach=[("m1", "i1")])
+                          extra={"IRs": {"i1", "i2"}}, attach=[("m1", "i1"), ("m2", "i2")])
 CONFIGS["Rel_sym"] = _rel("sym", ["m1", "m2"], ["y1", "y2", "y3"], "Modules", "Symbols", "sym",
-                          extra={"IRs": {"i1"}}, attach=[("m1", "i1")])
+                          extra={"IRs": {"i1", "i2"}}, attach=[("m1", "i1"), ("m2", "i2")])
 CONFIGS["Rel_prx"] = _rel("prx", ["m1", "m2"], ["p1", "p2", "p3"], "Modules", "Proxies", "prx",
-                          extra={"IRs": {"i1"}}, attach=[("m1", "i1")])
+                          extra={"IRs": {"i1", "i2"}}, attach=[("m1", "i1"), ("m2", "i2")])
 CONFIGS["Rel_biv"] = _rel("biv", ["s1", "s2"], ["v1", "v2", "v3"], "Sections", "Intervals", "biv",
-                          extra={"IRs": {"i1"}, "Modules": {"m1"}},
-                          attach=[("m1", "i1"), ("s1", "m1")])
+                          extra={"IRs": {"i1", "i2"}, "Modules": {"m1", "m2"}},
+                          attach=[("m1", "i1"), ("m2", "i2"), ("s1", "m1"), ("s2", "m2")])
 CONFIGS["Rel_blk"] = _rel("blk", ["v1", "v2"], ["c1", "d1", "d2"], "Intervals", "Blocks", "blk",
-                          extra={"IRs": {"i1"}, "Modules": {"m1"}, "Sections": {"s1"},
+                          extra={"IRs": {"i1", "i2"}, "Modules": {"m1", "m2"}, "Sections": {"s1", "s2"},
                                  "CodeBlocks": {"c1"}, "DataBlocks": {"d1", "d2"}},
-                          attach=[("m1", "i1"), ("s1", "m1"), ("v1", "s1")])
+                          attach=[("m1", "i1"), ("m2", "i2"), ("s1", "m1"), ("s2", "m2"), ("v1", "s1"), ("v2", "s2")])
 for _k in ("Rel_blk",):
     CONFIGS[_k].pop("Blocks", None)
 
@@ -270,6 +270,16 @@ def proto_base(schema):
         EmitKeys={"mods", "kids", "par", "cache", "addr", "isz", "off", "bsz", "sname", "pay", "symx", "cfg", "bytes",
                   "tags", "entry", "scal"},
     )
+
+
+CONFIGS["GeomBig"] = dict(  # enough values per index that pending events are replayed rather than rebuilt
+    IRs={"i1"}, Modules={"m1"}, Sections={"s1", "s2"}, Intervals={"v1", "v2", "v3", "v4", "v5", "v6"},
+    CodeBlocks={"c1", "c2", "c3", "c4"}, DataBlocks={"d1", "d2", "d3", "d4"},
+    Addrs={0, 2, 5, 9}, ISizes={0, 1, 4, 7}, Offs={0, 1, 3, 6}, BSizes={0, 1, 2, 5},
+    Families={"geom", ("parent", "blk"), ("parent", "biv")},
+    Attach0=[("m1", "i1"), ("s1", "m1"), ("s2", "m1")] + [("v%d" % k, "s1") for k in range(1, 7)]
+            + [(b, "v1") for b in ("c1", "c2", "c3", "c4", "d1", "d2", "d3")] + [("d4", "v2")],
+    EmitKeys=set(GEOM_KEYS))
 
 
 def get(name, extra=None):
